@@ -47,7 +47,7 @@ def build_template(alg_name, cone_spec, K, m, eps, delta=0.05, noise_var=0.01, c
     name = seams.inject_dataset(in_data, out_data)
     order = cones.make_order(cone_spec) if cone_spec is not None else None
 
-    def construct():
+    def construct(eps=eps, delta=delta):
         if alg_name == "PaVeBa":
             return A.PaVeBa(eps, delta, name, order, noise_var, conf_contraction=contraction)
         if alg_name == "PaVeBaGP-IH":
@@ -70,6 +70,12 @@ def build_template(alg_name, cone_spec, K, m, eps, delta=0.05, noise_var=0.01, c
 
     if stub and not fit:
         with seams.no_fit():
+            # a decoy instance with a different (larger) epsilon and delta is built first and thrown away:
+            # nothing may leak from one instance to the next (module-level caches, shared mutable defaults)
+            try:
+                construct(eps * 3.0, min(0.9, delta * 2.0))
+            except Exception:
+                pass
             alg = construct()
     else:
         alg = construct()
